@@ -130,12 +130,17 @@ func (c *vfcClient) req(proc uint32, args []byte, meta M, roles map[string][]str
 	// defaults so that every line has every field with a fixed type
 	for k, v := range map[string]interface{}{"h": []string{}, "name": "", "ncls": "none", "h2": []string{}, "name2": "", "ncls2": "none",
 		"how": "", "verf": "", "hasmode": false, "mode": 0, "hassize": false, "size": 0, "hasuid": false, "uid": 0, "hasgid": false, "gid": 0,
-		"off": 0, "offc": "small", "cnt": 0, "cntbig": false, "stable": 0, "data": []int{}, "euid": 0, "egid": 0, "tgt": "", "tgtc": []string{}, "tgtok": true, "mask": 0, "hknown": true} {
+		"off": 0, "offc": "small", "cnt": 0, "cntbig": false, "stable": 0, "data": []int{}, "euid": 0, "egid": 0, "tgt": "", "tgtc": []string{}, "tgtok": true, "mask": 0, "hknown": true,
+		"rocheck": false, "faulty": false, "mangle": "ok", "acc_mod": false, "acc_ext": false, "acc_del": false} {
 		line[k] = v
 	}
 	for k, v := range meta {
 		line[k] = v
 	}
+	cu, _ := vfcCap(uint64(c.cred.UID))
+	cg, _ := vfcCap(uint64(c.cred.GID))
+	line["cuid"], line["cgid"] = cu, cg
+	line["cflavor"] = map[uint32]string{AUTH_NONE: "NONE", AUTH_SYS: "SYS"}[c.cred.Flavor]
 	res := M{"kind": "", "newh": []string{}, "hasnewh": false, "names": []string{}, "types": []string{}, "target": "", "count": 0, "eof": false, "data": []int{},
 		"committed": -1, "verf": "", "access": 0, "complete": true, "dlen": 0}
 	attrs := []M{}
@@ -471,7 +476,11 @@ func (c *vfcClient) fsx(proc uint32, h uint64) *vfNFSReply {
 // ---- histories -------------------------------------------------------------------------
 
 func vfcNewClient(t testing.TB, tr *vfTrace, cfg vfcCfg, hist int, seed int64) *vfcClient {
-	fs := vfNewFS()
+	return vfcNewClientOn(t, tr, cfg, hist, seed, vfNewFS())
+}
+
+// vfcNewClientOn exports an existing backend.
+func vfcNewClientOn(t testing.TB, tr *vfTrace, cfg vfcCfg, hist int, seed int64, fs *vfsFS) *vfcClient {
 	opts := ExportOptions{CacheNegativeLookups: cfg.Neg, EnableDirCache: cfg.Dir, MaxWorkers: 2, ReadOnly: cfg.RO, Squash: cfg.Squash}
 	if cfg.TTL == "min" {
 		opts.AttrCacheTimeout = time.Nanosecond
